@@ -10,6 +10,7 @@ import (
 	"os"
 	"regexp"
 	"sort"
+	"sync"
 	"strings"
 
 	"github.com/tychoish/fun"
@@ -290,6 +291,9 @@ func init() {
 					{"Delete", func(ctx context.Context, a int) { mp.Delete(a % 4) }},
 					{"Check", func(ctx context.Context, a int) { mp.Check(a % 4) }},
 					{"EnsureStore", func(ctx context.Context, a int) { mp.EnsureStore(a%4, a) }},
+					{"Set", func(ctx context.Context, a int) { mp.Set(dt.MakePair(a%4, a)) }},
+					{"EnsureSet", func(ctx context.Context, a int) { mp.EnsureSet(dt.MakePair(a%4, a)) }},
+					{"EnsureDefault", func(ctx context.Context, a int) { mp.EnsureDefault(a%4, func() int { return a }) }},
 					{"Ensure", func(ctx context.Context, a int) { mp.Ensure(a % 4) }},
 					{"Len", func(ctx context.Context, a int) { mp.Len() }},
 					{"Range", func(ctx context.Context, a int) { mp.Range(func(int, int) bool { return true }) }},
@@ -311,6 +315,9 @@ func init() {
 					{"Atomic.Set", func(ctx context.Context, a int) { at.Set(a) }},
 					{"Atomic.Get", func(ctx context.Context, a int) { at.Get() }},
 					{"Atomic.Swap", func(ctx context.Context, a int) { at.Swap(a) }},
+					{"Atomic.Store+Load", func(ctx context.Context, a int) { at.Store(a); at.Load() }},
+					{"Synchronized.Store+Load", func(ctx context.Context, a int) { sy.Store(a); sy.Load() }},
+					{"Synchronized.Using", func(ctx context.Context, a int) { sy.Using(func() {}) }},
 					{"Atomic.CompareAndSwap", func(ctx context.Context, a int) { adt.CompareAndSwap[int](at, a, a+1) }},
 					{"Synchronized.Set", func(ctx context.Context, a int) { sy.Set(a) }},
 					{"Synchronized.Get", func(ctx context.Context, a int) { sy.Get() }},
@@ -365,6 +372,9 @@ func init() {
 							}
 						}
 					}},
+					{"SortQuick", func(ctx context.Context, a int) { s.SortQuick(func(x, y int) bool { return x < y }) }},
+					{"SortMerge", func(ctx context.Context, a int) { s.SortMerge(func(x, y int) bool { return x > y }) }},
+					{"Populate", func(ctx context.Context, a int) { s.Populate(fun.SliceIterator([]int{a % 5, 3})) }},
 					{"Equal", func(ctx context.Context, a int) { s.Equal(other) }},
 					{"Extend", func(ctx context.Context, a int) { s.Extend(other) }},
 					{"MarshalJSON", func(ctx context.Context, a int) { _, _ = s.MarshalJSON() }},
@@ -396,8 +406,28 @@ func init() {
 			ftLimit := fun.Future[int](func() int { return 3 }).Limit(2)
 			hdOnce := fun.Handler[int](func(int) {}).Once()
 			pcOnce := fun.Processor[int](func(context.Context, int) error { return nil }).Once()
+			// WithLock forms share one mutex and one unsynchronised counter
+			var wl int
+			shared := &sync.Mutex{}
+			opWL := fun.Operation(func(context.Context) { wl++ }).WithLock(shared)
+			wkWL := fun.Worker(func(context.Context) error { wl++; return nil }).WithLock(shared)
+			prWL := fun.Producer[int](func(context.Context) (int, error) { wl++; return wl, nil }).WithLock(shared)
+			pcWL := fun.Processor[int](func(_ context.Context, in int) error { wl += in; return nil }).WithLock(shared)
+			hdWL := fun.Handler[int](func(in int) { wl += in }).WithLock(shared)
+			ftWL := fun.Future[int](func() int { wl++; return wl }).WithLock(shared)
+			trWL := fun.Transform[int, int](func(_ context.Context, in int) (int, error) { wl += in; return wl, nil }).WithLock(shared)
+			var tl int
+			trLock := fun.Transform[int, int](func(_ context.Context, in int) (int, error) { tl += in; return tl, nil }).Lock()
 			return func() []method {
 				return []method{
+					{"Operation.WithLock", func(ctx context.Context, a int) { opWL(ctx) }},
+					{"Worker.WithLock", func(ctx context.Context, a int) { _ = wkWL(ctx) }},
+					{"Producer.WithLock", func(ctx context.Context, a int) { _, _ = prWL(ctx) }},
+					{"Processor.WithLock", func(ctx context.Context, a int) { _ = pcWL(ctx, a) }},
+					{"Handler.WithLock", func(ctx context.Context, a int) { hdWL(a) }},
+					{"Future.WithLock", func(ctx context.Context, a int) { ftWL() }},
+					{"Transform.WithLock", func(ctx context.Context, a int) { _, _ = trWL(ctx, a) }},
+					{"Transform.Lock", func(ctx context.Context, a int) { _, _ = trLock(ctx, a) }},
 					{"Operation.Lock", func(ctx context.Context, a int) { opLock(ctx) }},
 					{"Worker.Lock", func(ctx context.Context, a int) { _ = wkLock(ctx) }},
 					{"Producer.Lock", func(ctx context.Context, a int) { _, _ = prLock(ctx) }},
